@@ -11,15 +11,28 @@ def bookingT (p : Posting) : BookingT :=
 
 def PrintablePosting (p : Posting) : Prop :=
   PrintableAccount p.other = true ∧ PrintableAccount p.account = true ∧ PrintableQty p.quantity ∧ okName p.commodity = true
+instance (p : Posting) : Decidable (PrintablePosting p) := by unfold PrintablePosting; exact inferInstance
+
+/-- the printer's quote replacement changes nothing on a description without a double quote -/
+theorem descText_id (s : String) (h : '"' ∉ s.toList) : descText s = s := by
+  unfold descText
+  have : s.toList.map (fun c => if c == '"' then '\'' else c) = s.toList := by
+    conv => rhs; rw [← List.map_id s.toList]
+    apply List.map_congr_left
+    intro c hc
+    have : c ≠ '"' := fun e => h (e ▸ hc)
+    simp [this]
+  rw [this, String.ofList_toList]
 
 /-- a transaction `printTx` writes and the loader reads back as the same transaction: no double quote in the
-description (so that the printer's `"`→`'` replacement changes nothing), bookings in the normal form of
+description (the printer's `"`→`'` replacement then changes nothing, `descText_id`), bookings in the normal form of
 `C09_booking_normal_form` (the posting list is what the printed bookings rebuild), printable fields -/
 def PrintableTx (t : Transaction) : Prop :=
-  PrintableDate t.date ∧ '"' ∉ t.description.toList ∧ t.description.replace "\"" "'" = t.description ∧
+  PrintableDate t.date ∧ '"' ∉ t.description.toList ∧
   everyOther t.postings ≠ [] ∧ (∀ p ∈ everyOther t.postings, PrintablePosting p) ∧
   t.postings = (everyOther t.postings).flatMap (fun p => postingBuild p.other p.account p.commodity p.quantity) ∧
-  (∀ tg, t.targets = some tg → ∀ c ∈ tg, okName c = true)
+  (∀ c ∈ t.targets.getD [], okName c = true)
+instance (t : Transaction) : Decidable (PrintableTx t) := by unfold PrintableTx; exact inferInstance
 
 theorem strToks_ofList_spaces (n : Nat) : strToks (String.ofList (List.replicate n ' ')) = spacesT n := by
   unfold strToks spacesT charsToks
@@ -118,7 +131,9 @@ def txInput (t : Transaction) : Accrual.TxInput :=
 /-- **a printed transaction** (any padding) **loads back to itself** -/
 theorem load_tx (pad : Nat) (path : String) (t : Transaction) (h : PrintableTx t) :
     loadText path (strBytes (printTx pad t)) = .ok [.tx t] := by
-  obtain ⟨hd, hq, hrep, hne, hps, hnf, htg⟩ := h
+  obtain ⟨hd, hq, hne, hps, hnf, htg'⟩ := h
+  have hrep := descText_id _ hq
+  have htg : ∀ tg, t.targets = some tg → ∀ c ∈ tg, okName c = true := fun tg e c hc => htg' c (by rw [e]; exact hc)
   let v : DirT := .transaction none (t.targets.map (·.map strToks)) (dateT t.date) (strToks t.description)
     ((everyOther t.postings).map bookingT)
   have e : strToks (printTx pad t) = renderT pad v := by
